@@ -2,28 +2,50 @@ package os
 
 import "os"
 
+import "github.com/glebziz/fs_db/internal/verifhook"
+
 var (
 	ErrNotExist = os.ErrNotExist
 )
 
 func MkdirAll(path string, perm os.FileMode) error {
+	if err := verifhook.Point("os.mkdir", path); err != nil {
+		return err
+	}
+
 	return os.MkdirAll(path, perm)
 }
 
 func ReadDir(name string) ([]os.DirEntry, error) {
+	if err := verifhook.Point("os.readdir", name); err != nil {
+		return nil, err
+	}
+
 	return os.ReadDir(name)
 }
 
 func Create(name string) (File, error) {
+	if err := verifhook.Point("os.create", name); err != nil {
+		return File{}, err
+	}
+
 	f, err := os.Create(name)
 	return File{f}, err
 }
 
 func Open(name string) (File, error) {
+	if err := verifhook.Point("os.open", name); err != nil {
+		return File{}, err
+	}
+
 	f, err := os.Open(name)
 	return File{f}, err
 }
 
 func Remove(name string) error {
+	if err := verifhook.Point("os.remove", name); err != nil {
+		return err
+	}
+
 	return os.Remove(name)
 }
